@@ -557,6 +557,12 @@ class loop_if(x12_node):
                             possible = child.get_unique_key_id_element(id_val)
                             if possible is not None:
                                 return child.getnodebypath2(x12path.format())
+        if len(x12path.loop_list) == 0 and x12path.seg_id is not None \
+                and x12path.id_val is None and x12path.ele_idx is None:
+            # a loop whose id reads like a segment id (997: AK2, AK3)
+            for child in self.childIterator():
+                if child.is_loop() and child.id.upper() == x12path.seg_id.upper():
+                    return child
         raise EngineError(
             'getnodebypath2 failed. Path "%s" not found' % path_str)
 
